@@ -289,6 +289,64 @@ Definition rotate_stmt1 (lg : bool) (s : stmt) : stmt :=
   | s => s
   end.
 
+(** * Re-association normal form of a C tree (harness classifier only, no theorem depends on it):
+      every + - / * / && / || chain left-nested.  Two trees with the same normal form differ only by
+      the association of such chains -- the K-C06-1 family. *)
+Inductive cacc : Type :=
+  | CANone
+  | CAAdd (a : cexpr)
+  | CAMul (a : cexpr)
+  | CAAnd (a : cexpr)
+  | CAOr (a : cexpr).
+
+Definition cclose (acc : cacc) (c : cexpr) : cexpr :=
+  match acc with
+  | CANone => c
+  | CAAdd a => CBin OAdd a c
+  | CAMul a => CBin OMul a c
+  | CAAnd a => CBin OAnd a c
+  | CAOr a => CBin OOr a c
+  end.
+
+Fixpoint cnorm_acc (c : cexpr) (acc : cacc) {struct c} : cexpr :=
+  match c with
+  | CBin OAdd a b =>
+      match acc with
+      | CANone | CAAdd _ => cnorm_acc b (CAAdd (cnorm_acc a acc))
+      | _ => cclose acc (cnorm_acc b (CAAdd (cnorm_acc a CANone)))
+      end
+  | CBin OSub a b =>
+      match acc with
+      | CANone | CAAdd _ => CBin OSub (cnorm_acc a acc) (cnorm_acc b CANone)
+      | _ => cclose acc (CBin OSub (cnorm_acc a CANone) (cnorm_acc b CANone))
+      end
+  | CBin OMul a b =>
+      match acc with
+      | CANone | CAMul _ => cnorm_acc b (CAMul (cnorm_acc a acc))
+      | _ => cclose acc (cnorm_acc b (CAMul (cnorm_acc a CANone)))
+      end
+  | CBin OAnd a b =>
+      match acc with
+      | CANone | CAAnd _ => cnorm_acc b (CAAnd (cnorm_acc a acc))
+      | _ => cclose acc (cnorm_acc b (CAAnd (cnorm_acc a CANone)))
+      end
+  | CBin OOr a b =>
+      match acc with
+      | CANone | CAOr _ => cnorm_acc b (CAOr (cnorm_acc a acc))
+      | _ => cclose acc (cnorm_acc b (CAOr (cnorm_acc a CANone)))
+      end
+  | CBin o a b => cclose acc (CBin o (cnorm_acc a CANone) (cnorm_acc b CANone))
+  | CNeg a => cclose acc (CNeg (cnorm_acc a CANone))
+  | CCast t a => cclose acc (CCast t (cnorm_acc a CANone))
+  | CIndex a i => cclose acc (CIndex (cnorm_acc a CANone) (cnorm_acc i CANone))
+  | CArrow a f => cclose acc (CArrow (cnorm_acc a CANone) f)
+  | CCall1 f a => cclose acc (CCall1 (cnorm_acc f CANone) (cnorm_acc a CANone))
+  | CCall2 f a b => cclose acc (CCall2 (cnorm_acc f CANone) (cnorm_acc a CANone) (cnorm_acc b CANone))
+  | CVar _ | CInt _ | CFloat _ | CBool _ | CSizeof _ => cclose acc c
+  end.
+
+Definition cnorm (c : cexpr) : cexpr := cnorm_acc c CANone.
+
 (** the C statement tree that the printed assignment derives *)
 Definition cstmt_of_assignment (target value : expr) : cstmt :=
   let ct := embed (rotate target) in
